@@ -560,6 +560,12 @@ pub fn run(tier: Tier) -> i32 {
     }
     run.count("histories:enumerated_(all_prefixes)", hists.len() as u64);
 
+    // ---- 2b. schedules: every interleaving of concurrent calls at the seam's scheduling points, preemption-bounded
+    #[cfg(prqlc_verif)]
+    if let Err(code) = crate::c11s::run_part(&mut run, tier) {
+        return code;
+    }
+
     // ---- 3. file enumeration orders
     for (pi, files) in projects().iter().enumerate() {
         let perms = permutations(files);
@@ -617,6 +623,10 @@ pub fn run(tier: Tier) -> i32 {
 }
 
 pub fn replay(v: &J) -> i32 {
+    #[cfg(prqlc_verif)]
+    if v["driver"].as_str() == Some("SCH") {
+        return crate::c11s::replay(v);
+    }
     println!("re-run ./check C11 quick; case: {}", v);
     1
 }
